@@ -64,15 +64,30 @@ func (p *Program) RunInit() (err error) {
 	// snapshot
 	for class, h := range st.Heap {
 		m := map[int64]*T{}
+		type symStore struct{ i, v *T }
+		var syms []symStore
 		for h.Op == term.OStore {
 			k, ok := h.Args[1].Int64()
 			if !ok {
-				return fmt.Errorf("init heap class %s has a symbolic store", class)
+				// boxed interface payloads are keyed by box!T(contents): kept as a store chain
+				syms = append(syms, symStore{h.Args[1], h.Args[2]})
+				h = h.Args[0]
+				continue
 			}
 			if _, dup := m[k]; !dup {
 				m[k] = h.Args[2]
 			}
 			h = h.Args[0]
+		}
+		if len(syms) > 0 {
+			base := term.Var("H0!"+class, st.Heap[class].Sort)
+			for i := len(syms) - 1; i >= 0; i-- {
+				base = term.Store(base, syms[i].i, syms[i].v)
+			}
+			if p.Init.Extra == nil {
+				p.Init.Extra = map[string]*T{}
+			}
+			p.Init.Extra[class] = base
 		}
 		if h.Op == term.OArrMap {
 			h.M.Each(func(k int64, v *T) bool {
